@@ -430,6 +430,244 @@ func runC15(t *testing.T, x c15Scn, verbose bool) vfCase {
 	return c
 }
 
+
+// ---- a foreign receiver that acknowledges with SHUTDOWN chunks ----
+//
+// A peer in SHUTDOWN-SENT acknowledges the data it still receives with the cumulative TSN of
+// its SHUTDOWN chunks (RFC 9260 9.2), alone or bundled after a SACK; pion always sends a SACK
+// first. A puppet receiver acknowledges a generated part with SACKs, then starts shutting
+// down and acknowledges the rest step by step with SHUTDOWN chunks. The sender's per-stream
+// buffered amounts must follow the ledger at every step and end at zero, with the
+// low-threshold callback fired at each downward crossing.
+
+type c15ShutStep struct {
+	Kind  int `json:"kind"` // 0 SACK, 1 bare SHUTDOWN, 2 SACK + SHUTDOWN in one packet, 3 the same SHUTDOWN again
+	Back  int `json:"back"` // acknowledge up to (everything received so far) minus Back chunks
+	GapMs int `json:"gap"`
+}
+
+type c15Shut struct {
+	Opt vfOptMix `json:"opt,omitempty"` // options that must not matter here
+	IL     bool          `json:"il"`
+	TSN    uint32        `json:"tsn"`    // the sender's initial TSN
+	Writes [][2]int      `json:"writes"` // (stream 0..2, size)
+	Thresh [3]int        `json:"thresh"`
+	Steps  []c15ShutStep `json:"steps"`
+}
+
+func genC15Shut(rt *rapid.T) c15Shut {
+	x := c15Shut{IL: rapid.Bool().Draw(rt, "il"), TSN: genTSN(rt, "tsn", 8448)}
+	for i := range x.Thresh {
+		x.Thresh[i] = rapid.SampledFrom([]int{0, 1, 100, 1500, 5000}).Draw(rt, "thresh")
+	}
+	nw := rapid.IntRange(1, 12).Draw(rt, "nw")
+	for i := 0; i < nw; i++ {
+		x.Writes = append(x.Writes, [2]int{rapid.IntRange(0, 2).Draw(rt, "sid"), rapid.SampledFrom([]int{1, 100, 1000, 1200, 3000, 9000}).Draw(rt, "size")})
+	}
+	x.Opt = genOptMix(rt, "opt")
+	ns := rapid.IntRange(1, 10).Draw(rt, "nsteps")
+	shut := false
+	for i := 0; i < ns; i++ {
+		st := c15ShutStep{Back: rapid.SampledFrom([]int{0, 0, 1, 2, 5}).Draw(rt, "back"), GapMs: rapid.SampledFrom([]int{15, 30, 250, 1100}).Draw(rt, "gap")}
+		if shut || rapid.IntRange(0, 2).Draw(rt, "shut") == 0 {
+			shut = true
+			st.Kind = rapid.SampledFrom([]int{1, 1, 2, 3}).Draw(rt, "skind")
+		}
+		x.Steps = append(x.Steps, st)
+	}
+	return x
+}
+
+func runC15Shut(t *testing.T, x c15Shut, verbose bool) (c vfCase) {
+	return runC15ShutX(t, x, verbose, false)
+}
+
+// runC15ShutX: with completion the run also judges the end of the peer-initiated shutdown (C08):
+// once everything is acknowledged the endpoint answers SHUTDOWN-ACK and closes on SHUTDOWN-COMPLETE.
+func runC15ShutX(t *testing.T, x c15Shut, verbose bool, completion bool) (c vfCase) {
+	var e1 vfE1
+	e1.Cfg[0] = vfSideCfg{IL: x.IL, TSN: x.TSN, RTOMax: 2000}
+	x.Opt.apply(&e1.Cfg[0])
+	shutAckedNew, steps2 := 0, 0
+	pm := vfBubble(t, func() {
+		s := newVfSim(t, &e1, verbose)
+		p := newVfPuppet(s, 1, vfPuppetCfg{IL: x.IL, TSN: 5000, ARwnd: 1 << 20})
+		defer func() {
+			if c.Verdict != "" || verbose {
+				c.Detail = s.history(300)
+			}
+			s.closeAll()
+		}()
+		if !p.connectAsServer(30 * time.Second) {
+			c.fail("puppet-handshake", "victim did not establish with the puppet")
+			return
+		}
+		s.afterEstablished()
+		a := s.as[0]
+		type ck struct {
+			sid uint16
+			n   int
+		}
+		chunks := map[uint32]ck{}
+		p.onPacket = func(pk *wPacket) {
+			for i := range pk.Chunks {
+				ch := &pk.Chunks[i]
+				if ch.Type == wtDATA || ch.Type == wtIDATA {
+					if _, ok := chunks[ch.TSN]; !ok {
+						chunks[ch.TSN] = ck{ch.SID, len(ch.Data)}
+					}
+					p.modelRecv(ch.TSN)
+				}
+			}
+		}
+		p.rcvCum = x.TSN - 1
+		var strs [3]*Stream
+		var cb [3]int
+		var accepted, acked [3]int
+		for i := 0; i < 3; i++ {
+			h, err := s.stream(0, uint16(i), PayloadTypeWebRTCBinary)
+			if err != nil {
+				c.fail("open-failed", "OpenStream: %v", err)
+				return
+			}
+			strs[i] = h.s
+			i := i
+			h.s.SetBufferedAmountLowThreshold(uint64(x.Thresh[i]))
+			h.s.OnBufferedAmountLow(func() { s.mu.Lock(); cb[i]++; s.mu.Unlock() })
+		}
+		for i, w := range x.Writes {
+			if n, err := strs[w[0]].WriteSCTP(vfPayload(800+i, w[1]), PayloadTypeWebRTCBinary); err == nil {
+				accepted[w[0]] += n
+			}
+		}
+		s.o.settle(30 * time.Millisecond)
+		ackedUpTo := x.TSN - 1
+		var prev [3]int
+		for i := range prev {
+			prev[i] = accepted[i]
+		}
+		var cbPrev [3]int
+		check := func(what string) bool {
+			if completion {
+				return true // (C08 judges how the shutdown ends, not the ledger)
+			}
+			for i := 0; i < 3; i++ {
+				want := accepted[i] - acked[i]
+				if got := int(strs[i].BufferedAmount()); got != want {
+					c.fail("buffered-amount-mismatch", "%s: stream %d BufferedAmount()=%d, ledger says accepted %d - acknowledged %d = %d", what, i, got, accepted[i], acked[i], want)
+					return false
+				}
+				s.mu.Lock()
+				n := cb[i]
+				s.mu.Unlock()
+				if prev[i] > x.Thresh[i] && want <= x.Thresh[i] && n == cbPrev[i] {
+					c.fail("low-threshold-callback-missing", "%s: stream %d went from %d to %d buffered bytes across its threshold %d and OnBufferedAmountLow did not fire", what, i, prev[i], want, x.Thresh[i])
+					return false
+				}
+				prev[i], cbPrev[i] = want, n
+			}
+			if got, want := a.BufferedAmount(), accepted[0]+accepted[1]+accepted[2]-acked[0]-acked[1]-acked[2]; got != want {
+				c.fail("association-amount-mismatch", "%s: Association.BufferedAmount()=%d, ledger %d", what, got, want)
+				return false
+			}
+			return true
+		}
+		ackTo := func(cum uint32, kind int) {
+			newly := 0
+			for t := ackedUpTo + 1; sna32LTE(t, cum); t++ {
+				if k, ok := chunks[t]; ok {
+					acked[k.sid] += k.n
+					newly += k.n
+				}
+			}
+			if sna32GT(cum, ackedUpTo) {
+				ackedUpTo = cum
+			}
+			sack := wChunk{Type: wtSACK, Cum: cum, ARwnd: 1 << 20}
+			shut := wChunk{Type: wtSHUTDOWN, Cum: cum}
+			switch kind {
+			case 0:
+				p.send(sack)
+			case 1, 3:
+				p.send(shut)
+				if newly > 0 {
+					shutAckedNew++
+				}
+			case 2:
+				p.send(sack, shut)
+			}
+		}
+		lastShut := uint32(0)
+		shutSent := false
+		for i, st := range x.Steps {
+			cum := p.rcvCum - uint32(st.Back)
+			if sna32LT(cum, ackedUpTo) {
+				cum = ackedUpTo
+			}
+			if st.Kind == 3 && shutSent {
+				cum = lastShut
+			}
+			ackTo(cum, st.Kind)
+			if st.Kind != 0 {
+				shutSent, lastShut = true, cum
+				steps2++
+			}
+			s.o.settle(time.Duration(st.GapMs) * time.Millisecond)
+			if !check(fmt.Sprintf("step %d %+v", i, st)) {
+				return
+			}
+		}
+		// the peer finishes: it keeps acknowledging with SHUTDOWN chunks until nothing is left
+		for i := 0; i < 400; i++ {
+			if a.BufferedAmount() == 0 && ackedUpTo == p.rcvCum {
+				break
+			}
+			ackTo(p.rcvCum, 1)
+			s.o.settle(250 * time.Millisecond)
+			if !check(fmt.Sprintf("closing round %d", i)) {
+				return
+			}
+		}
+		if !check("end") {
+			return
+		}
+		for i := 0; i < 3 && !completion; i++ {
+			if accepted[i]-acked[i] != 0 {
+				c.fail("not-drained", "stream %d: %d bytes were never sent / acknowledged although the peer acknowledged everything it received for 100 s", i, accepted[i]-acked[i])
+				return
+			}
+		}
+		if completion {
+			if !shutSent {
+				ackTo(p.rcvCum, 1)
+			}
+			s.o.run(func() bool { return p.count(wtSHUTACK) > 0 }, time.Now().Add(10*time.Second))
+			if p.count(wtSHUTACK) == 0 {
+				c.fail("shutdown-hangs", "the peer shut down and acknowledged all data with its SHUTDOWN chunks, but the endpoint never sent SHUTDOWN-ACK (state %s, %d chunks in flight)", getAssociationStateString(a.getState()), vfPeekAssoc(a).InflightN)
+				return
+			}
+			p.send(wChunk{Type: wtSHUTCOMP})
+			s.o.run(func() bool { return a.getState() == closed }, time.Now().Add(5*time.Second))
+			if st := a.getState(); st != closed {
+				c.fail("not-closed", "SHUTDOWN-COMPLETE was delivered but the endpoint is in state %s", getAssociationStateString(st))
+			}
+		}
+	})
+	if pm != "" && c.Verdict == "" {
+		c.fail("bubble-panic", "bubble: %s", pm)
+	}
+	if shutAckedNew > 0 {
+		c.class("shutdown-chunk-acknowledged-new-data")
+	}
+	if shutAckedNew > 1 {
+		c.class("several-shutdown-chunks-acknowledged-new-data")
+	}
+	c.Nontrivial = shutAckedNew > 1
+	_ = steps2
+	return c
+}
+
 func TestVF_C15(t *testing.T) {
 	vfExplore(t, "C15", "ledger", vfN(2400, 60000), genC15, func(x c15Scn) vfCase { return runC15(t, x, vfEnv.Replay != "") })
+	vfExplore(t, "C15", "shutdown-acks", vfN(1600, 40000), genC15Shut, func(x c15Shut) vfCase { return runC15Shut(t, x, vfEnv.Replay != "") })
 }
